@@ -672,6 +672,7 @@ def run(prog, rep, tier, repo):
                      'matrix operand in position %d' % (short(c.path), show(c.args[0])[:50], show(c.args[1])[:50],
                                                          'right' if mv else 'left', vec_pos, mat_pos), site_of(b))
     rep.floor('promotion', 32, 'Matrix o Vector and Vector o Matrix impls')
+    _matvec_witnesses(prog, rep)
     # to_matrix builds 1 x n
     tm = prog.func('linalg::array::vec::Vector::to_matrix')
     key = 'promotion:to_matrix-shape'
@@ -701,3 +702,60 @@ def _strip_owned(t):
     while tag(t) == 'call' and short(t[1]) in ('to_owned', 'clone', 'deref', 'borrow') and t[2]:
         t = t[2][0]
     return t
+
+
+def _matvec_witnesses(prog, rep):
+    """Matrix o Vector and Vector o Matrix on exact shape witnesses (matrix r x c with r, c in 1..3, vector of length 1..3, read as a
+    single row): a compatible pair (c == n, c == 1 or n == 1) must be able to return.  The conditions on the way -- through promotion,
+    fast paths, helper constructors and the broadcast dispatch -- are evaluated by the witness evaluator; a witness on which every path
+    ends in a panic is the violation ("no compatible pair panics").  Conditions that cannot be evaluated decide nothing."""
+    from ..precond import NC, Frame, _nk
+    import itertools
+    pdb = prog.pdb
+    ncx = NC(prog, max_depth=5)
+    n = 0
+    for k, b in sorted(pdb.bodies.items()):
+        if b.kind != 'assoc' or not b.impl or not b.impl['trait']:
+            continue
+        m = re.match(r'std::ops::(Add|Sub|Mul|Div)<(.*)>$', b.impl['trait'])
+        if not m:
+            continue
+        st, rhs = b.impl['self_ty'], m.group(2)
+        mv = 'Matrix' in st and 'Vector' in rhs
+        vm = 'Vector' in st and 'Matrix' in rhs
+        if not (mv or vm):
+            continue
+        f = prog.func(k)
+        if f is None:
+            continue
+        n += 1
+        key = 'compatible-returns:%s' % k
+        mat_i, vec_i = (1, 2) if mv else (2, 1)
+        bad = None
+        tried = 0
+        for r, c, ln in itertools.product((1, 2, 3), repeat=3):
+            if not (c == ln or c == 1 or ln == 1):
+                continue
+            a, v = ('arg', mat_i, None), ('arg', vec_i, None)
+            env = {_nk(('field', a, 1, None)): r, _nk(('field', a, 2, None)): c,
+                   _nk(('len', ('field', a, 0, None))): r * c, _nk(('len', ('field', ('field', a, 0, None), 0, None))): r * c,
+                   _nk(('len', v)): ln, _nk(('len', ('field', v, 0, None))): ln}
+            tried += 1
+            why = []
+            try:
+                dead = ncx.cannot_return(f, Frame(f, env=env, ncx=ncx), why)
+            except RecursionError:
+                dead = False
+            if dead:
+                from ..precond import show_guard
+                cmp_ = [w for w in why if w[1] != k] or [w for w in why if w[0][0] == 'cmp'] or why      # the callee's failing test first
+                bad = (r, c, ln, show_guard(cmp_[-1][0])[:90] if cmp_ else 'no return reachable', short(cmp_[-1][1]) if cmp_ else '')
+                break
+        for kk in ncx.visited:
+            rep.touch(kk)
+        if bad:
+            rep.viol('compatible-returns', key, 'a %dx%d matrix %s a vector of length %d (a 1x%d row) is a compatible pair, but the operator cannot return: `%s`%s '
+                     'fails on every path -- the call panics' % (bad[0], bad[1], m.group(1).lower(), bad[2], bad[2], bad[3], (' [in %s]' % bad[4]) if bad[4] else ''), site_of(b))
+        else:
+            rep.ok('compatible-returns', key, 'not refuted on %d compatible shape witnesses' % tried)
+    rep.floor('compatible-returns', 32, 'Matrix o Vector and Vector o Matrix impls')
